@@ -23,7 +23,7 @@ BAD_MATCH = ['amount > "x"', 'contains(5)', 'description + 1 == 2', '-descriptio
              'next(r for r in rows) == 1', 'regex_replace(description, "(", "") == ""', 'max(x for x in "") == "a"',
              'amount.lower() == "x"', 'date > 5', 'sum(description) > 0', 'startswith(description, 5)',
              'split(" ", 0) > 3', 'field.nope == "x"', 'nosuchvar', 'regex("(")', 'date >= "soon"', 'description[99] == "a"',
-             'unknown_fn(1)', 'rows[0].item > 3', 'min(amount, "a") == 1', 'round("x") == 1', 'abs(description) > 1',
+             'unknown_fn(1)', 'rows[0].item > 3', 'min(amount, "a") == 1', 'any(next(x for x in rows) for r in orders)', 'sum(next(r.amount for r in rows) for q in orders) > 0', 'round("x") == 1', 'abs(description) > 1',
              '"a" in 5', 'amount in amount', 'fuzzy(description, "UBER", "high")', 'trim(1, 2) == ""', 'extract(5, 5) == ""']
 BAD_VALUE = ['amount + "x"', 'next(r.item for r in rows)', 'extract(description, "(")', 'split(description, "", 0)',
              'description.bogus()', 'field.nope', 'uppercase(1, 2)', 'rows[9]', 'substring("a", "b")', '-description',
@@ -217,6 +217,14 @@ def run(ctx):
     # (2) random expressions with planted type errors, raw and through the root
     nrand = 1500 if ctx.quick else 60000
     items2 = list(evalcorr.random_items(r, nrand, ill=0.25))
+    # a StopIteration raised INSIDE a generator expression reaches its consumer as RuntimeError (PEP 479); inside a list
+    # comprehension or at the top it stays StopIteration — all of them are expression errors at the root (D8, D8b)
+    pep = ['any(next(x for x in empty) for r in rows)', 'sum(next(x.amount for x in empty) for r in rows)', 'next(x for x in empty)',
+           '[next(x for x in empty) for r in rows]', 'next(next(x for x in empty) for r in rows)', 'all(next(x for x in empty) for r in rows)',
+           'max(next(x.amount for x in empty) for r in rows)', 'next((next(x for x in empty) for r in rows), 0)',
+           'any(next((x for x in empty), false) for r in rows)', 'len([next(x for x in empty) for r in rows]) > 0',
+           'any(next(x for x in empty) for r in empty)', 'sum(r.amount for r in rows if next(x for x in empty))']
+    items2 = [(e, evalcorr.BASE_TXN, None, evalcorr.ROWS, 'pep479') for e in pep] + items2
     n2, dis2, st2 = evalcorr.run_stream(items2, root=False)
     n3, dis3, st3 = evalcorr.run_stream(items2[: nrand // 2], root=True)
     ctx.obligation('correspondence:random ill-typed expressions (raw + through _eval_Expression)', 'correspondence',
